@@ -35,10 +35,29 @@ type Variant struct {
 	Formats       []uint8   `json:"formats,omitempty"`        // PutCard: card formats as passed
 	ExtraSegments []uint8   `json:"extra_segments,omitempty"` // SetTimeProfile: extra (foreign) segment keys
 	// out-of-domain representations (C04 / C07)
-	ListenerRaw     string   `json:"listener_raw,omitempty"`     // SetListener: netip.ParseAddrPort text; "invalid" = zero value AddrPort
-	RawIPs          [][]byte `json:"raw_ips,omitempty"`          // SetAddress: address, mask, gateway as raw net.IP bytes (nil entry = nil IP)
-	MissingSegments []uint8  `json:"missing_segments,omitempty"` // SetTimeProfile: segment keys left out of the map
-	SegmentsNil     bool     `json:"segments_nil,omitempty"`     // SetTimeProfile: nil segments map
+	ListenerRaw     string    `json:"listener_raw,omitempty"`     // SetListener: netip.ParseAddrPort text; "invalid" = zero value AddrPort
+	RawIPs          [][]byte  `json:"raw_ips,omitempty"`          // SetAddress: address, mask, gateway as raw net.IP bytes (nil entry = nil IP)
+	MissingSegments []uint8   `json:"missing_segments,omitempty"` // SetTimeProfile: segment keys left out of the map
+	SegmentsNil     bool      `json:"segments_nil,omitempty"`     // SetTimeProfile: nil segments map
+	ExtremeDate     [2]string `json:"extreme_date"`               // from/to: "" | zero | y10000 | negative | max | min
+	ExtremeTime     string    `json:"extreme_time,omitempty"`     // SetTime: "" | zero | y10000 | negative | max | min
+}
+
+// Extreme returns hostile time.Time values (C04).
+func Extreme(kind string) (time.Time, bool) {
+	switch kind {
+	case "zero":
+		return time.Time{}, true
+	case "y10000":
+		return time.Date(10000, 1, 1, 0, 0, 0, 0, time.UTC), true
+	case "negative":
+		return time.Date(-5, 12, 31, 23, 59, 59, 0, time.UTC), true
+	case "max":
+		return time.Unix(1<<55, 999999999), true
+	case "min":
+		return time.Unix(-1<<55, 0), true
+	}
+	return time.Time{}, false
 }
 
 type Case struct {
@@ -123,8 +142,20 @@ func Weekdays(c spec.Call, v Variant) types.Weekdays {
 	return w
 }
 
+func dates(c spec.Call, v Variant) (types.Date, types.Date) {
+	from, to := mkDate(c.From, v.DateLoc[0], v.DateClock[0]), mkDate(c.To, v.DateLoc[1], v.DateClock[1])
+	if t, ok := Extreme(v.ExtremeDate[0]); ok {
+		from = types.Date(t)
+	}
+	if t, ok := Extreme(v.ExtremeDate[1]); ok {
+		to = types.Date(t)
+	}
+	return from, to
+}
+
 func Card(c spec.Call, v Variant) types.Card {
-	card := types.Card{CardNumber: c.Card, From: mkDate(c.From, v.DateLoc[0], v.DateClock[0]), To: mkDate(c.To, v.DateLoc[1], v.DateClock[1]), PIN: types.PIN(c.PIN)}
+	from, to := dates(c, v)
+	card := types.Card{CardNumber: c.Card, From: from, To: to, PIN: types.PIN(c.PIN)}
 	if !v.DoorsNil {
 		card.Doors = map[uint8]uint8{}
 		for i := 0; i < 4; i++ {
@@ -142,7 +173,8 @@ func Card(c spec.Call, v Variant) types.Card {
 }
 
 func Profile(c spec.Call, v Variant) types.TimeProfile {
-	p := types.TimeProfile{ID: c.Profile, LinkedProfileID: c.Linked, From: mkDate(c.From, v.DateLoc[0], v.DateClock[0]), To: mkDate(c.To, v.DateLoc[1], v.DateClock[1]), Weekdays: Weekdays(c, v)}
+	from, to := dates(c, v)
+	p := types.TimeProfile{ID: c.Profile, LinkedProfileID: c.Linked, From: from, To: to, Weekdays: Weekdays(c, v)}
 	p.Segments = types.Segments{}
 	for i := 0; i < 3; i++ {
 		p.Segments[uint8(i+1)] = types.Segment{Start: types.NewHHmm(c.Segments[2*i].H, c.Segments[2*i].M), End: types.NewHHmm(c.Segments[2*i+1].H, c.Segments[2*i+1].M)}
@@ -162,7 +194,8 @@ func Profile(c spec.Call, v Variant) types.TimeProfile {
 }
 
 func Task(c spec.Call, v Variant) types.Task {
-	return types.Task{Task: types.TaskType(c.Task), Door: c.Door, From: mkDate(c.From, v.DateLoc[0], v.DateClock[0]), To: mkDate(c.To, v.DateLoc[1], v.DateClock[1]),
+	from, to := dates(c, v)
+	return types.Task{Task: types.TaskType(c.Task), Door: c.Door, From: from, To: to,
 		Weekdays: Weekdays(c, v), Start: types.NewHHmm(c.Start.H, c.Start.M), Cards: c.Cards}
 }
 
@@ -189,6 +222,9 @@ func Readers(c spec.Call, v Variant) map[uint8]bool {
 func SetTimeArg(c spec.Call, v Variant) (time.Time, spec.CivilDT) {
 	d := c.DateTime
 	t := time.Date(d.Y, time.Month(d.M), d.D, d.H, d.Mi, d.S, v.TimeNanos, LoadLocation(v.TimeLoc))
+	if x, ok := Extreme(v.ExtremeTime); ok {
+		t = x
+	}
 	y, m, dd := t.Date()
 	h, mi, s := t.Clock()
 	return t, spec.CivilDT{Y: y, M: int(m), D: dd, H: h, Mi: mi, S: s}
